@@ -49,8 +49,14 @@ def P(mat, u, v):
     return sum(mat[i][j] * u ** i * v ** j for i in range(len(mat)) for j in range(len(mat[0])))
 
 
+# rules that keep their verdict however the code is laid out (decided by term equality, effect analysis or dominance over
+# resolved calls); every other rule of this check is a template rule (vcheck.core.Check.obt)
+SEMANTIC = ('R10.1', 'R10.12', 'R10.13', 'R10.5', 'R10.8')
+
+
 def run(chk):
     repo = PyRepo()
+    chk.set_templates(repo, semantic=SEMANTIC)
     chk.explanation = MANIFEST["text"]
     chk.trusted = ["sympy normaliser", "CPython ast", "networkx dominators"]
     chk.assume("theta0 = 90 (zenithal/TAN family): the general GetPole branches are outside the property's quantifier")
